@@ -123,6 +123,26 @@ fn oracle(c: &Case, st: &mut Stats) -> Result<(), String> {
     }
     finals_by_server.push(fin);
   }
+  // a server that has already served requests adopts the first server's key
+  // (export -> restore): from then on it is the same (key, tag, input)
+  if servers.len() >= 2 {
+    let bytes = bincode::serialize(&servers[0].get_private_key()).map_err(|e| format!("export failed: {e}"))?;
+    let state: ppoprf::ppoprf::ServerKeyState = bincode::deserialize(&bytes).map_err(|e| format!("key state does not restore: {e}"))?;
+    let mut adopter = servers[1].clone();
+    adopter.set_private_key(state);
+    for verifiable in [c.verifiable, !c.verifiable] {
+      let f = crate::starx::ppoprf_exchange(&adopter, md, &c.input, verifiable)
+        .map_err(|e| format!("server that adopted another server's key state: {e}"))?;
+      if f != finals_by_server[0] {
+        return Err(format!(
+          "a server that adopted the key of server 0 (after having served requests under its own key) gives another output for the same (tag {md}, input): {} vs {}",
+          hex::encode(f),
+          hex::encode(finals_by_server[0])
+        ));
+      }
+    }
+    st.class("key-adopted-by-busy-server");
+  }
   for i in 0..finals_by_server.len() {
     for j in i + 1..finals_by_server.len() {
       if finals_by_server[i] == finals_by_server[j] {
